@@ -156,6 +156,22 @@ def check_bytes(acc, cp, b: bytes, do_dict: bool, label):
         return
     if not ok:
         acc.fail("C12/list-property/structure", case, "prepend LIT; print;", str(prof.tree)[:300])
+        return
+    if do_dict and (len(b) <= 1 or 0x5C in b or 0x22 in b or 0x27 in b or (b[0] + b[-1]) % 4 == 0):
+        # the same bytes handed to the block builder as step and termination arguments, printed and read back (every
+        # string with a backslash or quote, every string of length <= 1, a quarter of the others)
+        want = {"http-post.client.id": [("prepend", b), ("header", b)], "http-post.client.output": [("append", b), ("parameter", b)]}
+        try:
+            built = cp.C2Profile()
+            client = cp.HttpOptionsBlock(id=cp.DataTransformBlock(steps=[("prepend", b), ("header", b)]), output=cp.DataTransformBlock(steps=[("append", b), ("parameter", b)]))
+            built.set_config_block("http_post", cp.HttpPostBlock(client=client))
+            d1 = built.as_dict()
+            d2 = cp.C2Profile.from_text(built.as_text()).as_dict()
+        except Exception as e:  # noqa
+            acc.fail("C12/builder/exception", case, "built profile", f"{type(e).__name__}: {e}")
+            return
+        if d1 != want or d2 != want:
+            acc.fail("C12/builder/step-or-termination-argument", case, repr(want)[:300], repr(d1 if d1 != want else d2)[:300])
 
 
 def chunk_bytes2(chunk, acc):
